@@ -51,7 +51,7 @@ func TestTranslatorAgainstNativeGo(t *testing.T) {
 	body, err := Translate(".", TransSpec{Dir: "internal/sample", Structs: []string{"Stack", "Words"}, Funcs: []string{
 		"DivMod", "Shifts", "Bits", "U8", "U32", "MinMax", "Cmp", "AndDiv", "OrDiv", "Bools", "Safe", "Classify", "Early", "MustPos",
 		"SumTo", "Collatz", "FindFirst", "SumPositiveUntilZero", "CountRange", "Nested", "Forever", "Reverse", "Window", "Build",
-		"CopyInto", "Swap", "MakeNeg", "Script", "WordIdx", "Pop64", "WordsScript"}})
+		"CopyInto", "Swap", "MakeNeg", "Script", "WordIdx", "Pop64", "WordsScript", "Locate", "NamedSum"}})
 	if err != nil {
 		t.Fatal(err)
 	}
@@ -151,6 +151,18 @@ func TestTranslatorAgainstNativeGo(t *testing.T) {
 					return fmt.Sprintf("(%d, %d, %d, %d)", n, l, last, wl)
 				})
 			}
+		}
+	}
+	// [BitsCode] named results
+	for _, a := range words {
+		a := a
+		add(fmt.Sprintf("g_Locate %d", a), func() string { i, m := sample.Locate(uint(a)); return fmt.Sprintf("(%d, %d)", i, m) })
+	}
+	for _, sl := range slices {
+		sl := sl
+		for _, lim := range []int{-5, 0, 3, 10, 100} {
+			lim := lim
+			add(fmt.Sprintf("g_NamedSum 200 %s %s", ls(sl), zs(lim)), func() string { t, c := sample.NamedSum(sl, lim); return "(" + zs(t) + ", " + bs(c) + ")" })
 		}
 	}
 	// out of fuel is its own value
